@@ -33,6 +33,10 @@ SHRINK_TIMEOUT = 15
 
 PROPS = {
     "C17": {
+        "design_ref": "6.6/C17",
+        "technique": "Lean 4 proof over a transcription of File.cpp on top of a written-down stdio/POSIX specification (round trip, append/truncate, fgetc/feof counting loop, size, open errors, every seek/tell/size/read history) + three-way differential correspondence on real files",
+        "level_text": "Partial by nature (libc and the kernel are specified, not verified): machine-checked proof that, given the stdio specification of Model/Stdio.lean, every byte string written through File in any write/append mode with any split into write calls is read back identically by read(), readStr() and read(buffer,..) in both read modes, append adds after the old content and write truncates, the fgetc/feof loop counts exactly the remaining bytes for any bytes (0xFF, 0x00 included), size() equals the content length and leaves the position, a missing file gives NotFound and a directory NotFile, and every history of seek/tell/size/read calls equals the byte-list specification. The stdio specification and the transcription are tied to glibc and File.cpp on every run by running model, a Python oracle and the real File on generated contents, splits, modes and call sequences.",
+        "level_note": "Trusted: Lean kernel; the stdio/POSIX specification (Stdio.lean) — validated against glibc only by the correspondence run; transcription of File.cpp; no buffering/second stream; wrong-direction I/O is outside the statement.",
         "lean_modules": ["Tulz.Props.C17"],
         "theorems": ["Tulz.C17_roundtrip", "Tulz.C17_truncate", "Tulz.C17_append", "Tulz.C17_read_back",
                      "Tulz.C17_count_loop", "Tulz.C17_count_loop_diverges", "Tulz.C17_size", "Tulz.C17_open_errors",
@@ -49,6 +53,10 @@ PROPS = {
                         "the model reports it as Err.hang, theorem C17_count_loop_diverges)"],
     },
     "C18": {
+        "design_ref": "6.6/C18",
+        "technique": "Lean 4 proofs: string identities of join/getPathName/getParentDirectory over all strings (2^64 size_t wrap modelled), structural induction over a file-system tree for size/listChildren, well-nestedness induction for DirectoryVisitor; exhaustive short-string + generated-tree correspondence on the real code",
+        "level_text": "String part proved outright for every string: name(join(d,n)) = n, parent(join(d,n)) = d without one trailing '/', join with an absolute path yields that path, isAbsolute iff leading '/', and no find/erase position ever leaves the string (total, no hypothesis). File-system part partial by nature (the OS is a specification): on a finite tree exists/isFile/isDirectory agree with the tree, listChildren is a duplicate-free permutation of the entry names without . and .. for every readdir order, a directory's size is the sum of the regular files beneath it, and any well-nested sequence of DirectoryVisitor lifetimes restores the working directory. Tied to Path.cpp/DirectoryVisitor.cpp on every run: all strings up to length 5 over a separator-rich alphabet and generated temp trees with nested visitors, compared across model, Python oracle (posixpath/os.scandir) and the real code (also against std::filesystem).",
+        "level_note": "Trusted: Lean kernel; libstdc++ string primitives as transcribed; the finite-tree / readdir / chdir specifications (validated by the correspondence run only); no symlinks, permissions, paths >= FILENAME_MAX.",
         "lean_modules": ["Tulz.Props.C18"],
         "theorems": ["Tulz.C18_name_of_join", "Tulz.C18_parent_of_join", "Tulz.C18_join_absolute", "Tulz.C18_isAbsolute", "Tulz.C18_total",
                      "Tulz.C18_exists_isFile_isDirectory", "Tulz.C18_listChildren", "Tulz.C18_listChildren_errors", "Tulz.C18_size_dir",
